@@ -15,6 +15,7 @@ from application_properties import ApplicationProperties, ApplicationPropertiesF
 from columnar import columnar
 
 from pymarkdown.extensions.pragma_token import PragmaExtension
+from pymarkdown.general import verif_probe
 from pymarkdown.general.main_presentation import MainPresentation
 from pymarkdown.general.parser_helper import ParserHelper
 from pymarkdown.plugin_manager.bad_plugin_error import BadPluginError
@@ -386,11 +387,29 @@ class PluginManager:
         ):
             id_set = self.__document_pragmas[scan_failure.line_number]
             if rule_id in id_set:
+                if verif_probe.ENABLED:
+                    verif_probe.emit(
+                        "failure",
+                        file=scan_failure.scan_file,
+                        line=scan_failure.line_number,
+                        col=scan_failure.column_number,
+                        rule=rule_id,
+                        suppressed="line",
+                    )
                 return
 
         if self.__document_pragma_ranges:
             for i, j, k in self.__document_pragma_ranges:
                 if i <= scan_failure.line_number <= j and rule_id in k:
+                    if verif_probe.ENABLED:
+                        verif_probe.emit(
+                            "failure",
+                            file=scan_failure.scan_file,
+                            line=scan_failure.line_number,
+                            col=scan_failure.column_number,
+                            rule=rule_id,
+                            suppressed="range",
+                        )
                     return
 
         extra_info = (
@@ -411,6 +430,15 @@ class PluginManager:
         )
         self.__presentation.print_scan_failure(adjusted_failure)
         self.number_of_scan_failures += 1
+        if verif_probe.ENABLED:
+            verif_probe.emit(
+                "failure",
+                file=scan_failure.scan_file,
+                line=scan_failure.line_number,
+                col=scan_failure.column_number,
+                rule=rule_id.lower(),
+                suppressed="",
+            )
 
     def log_pragma_failure(
         self, scan_file: str, line_number: int, pragma_error: str
@@ -546,6 +574,13 @@ class PluginManager:
                 str(plugin_object.plugin_enabled_by_default),
             )
 
+        if verif_probe.ENABLED:
+            verif_probe.emit(
+                "enabled",
+                rule=plugin_object.plugin_id,
+                default=plugin_object.plugin_enabled_by_default,
+                value=new_value,
+            )
         return (
             plugin_object.plugin_enabled_by_default if new_value is None else new_value
         )
